@@ -319,5 +319,16 @@ def jobs(tier, seed):
     items = [dict(name="invoke %s %s" % (n, f), fn=C11.check_sig, kw=dict(name=n, form=f), unwind=300) for n in ("s1", "s3", "s6") for f in ("plain", "tainted")]
     for i in range(3):
         out.append(Job("C06_invoke_%d" % i, src11, items[i::3], flags=fl))
+    # the by-value struct path (a narrowing member inside a struct whose total size does not change) and verified copies through
+    # a pointer: same kernels and oracles as C08 / C07, integer clauses
+    from specs import C07, C08
+    for j in C08.jobs("quick", seed):
+        if j.name in ("C08_B32_S6", "C08_B32_S7"):
+            keep = [c for c in j.checks if any(x in c["name"] for x in ("store", "load", "by-value"))]
+            out.append(Job(j.name.replace("C08_", "C06_struct_"), j.source, keep, flags=j.flags, unwind=j.unwind, compare_logs=j.compare_logs, native=j.want_native))
+    for j in C07.jobs("quick", seed):
+        keep = [c for c in j.checks if c["name"] in ("B32 cav long", "B32 cav ulong", "B32 cav short", "B32 cav llong")]
+        if keep:
+            out.append(Job(j.name.replace("C07_", "C06_cav_"), j.source, keep, flags=j.flags, unwind=j.unwind, compare_logs=j.compare_logs, native=j.want_native))
     out.append(Job("C06_callback", '#include "C12_bm.inc"\n', [dict(name="callback long(long) argument and result", fn=C12.check_bm_long, kw=dict(k="k_bm_cb_long"), unwind=200)]))
     return out
